@@ -182,6 +182,13 @@ def dispatch(ctx, rule='dispatch-arm-matches-case-label'):
                         want = 'LargestAlge' if name == 'BothEnds' else name
                         if built != want:
                             problems.append('case %s builds a %s sorter' % (name, built))
+                        if tq == 'Spectra::argsort' and len(fn.params) == 3:
+                            # the sorter orders exactly the `len` leading values: its index vector is then a permutation of 0 .. len-1
+                            la = fn.call_args(ctors[0])
+                            lt = sym(fn, la[1], inline=False) if len(la) >= 2 else None
+                            if lt != ('P', fn.locals[fn.params[2]]['name']):
+                                problems.append('case %s sorts %s values, not the %s leading ones the caller asked for: the result is not a permutation of 0 .. %s-1 (it can hold indices >= %s)' %
+                                                (name, show(lt) if lt else '?', fn.locals[fn.params[2]]['name'], fn.locals[fn.params[2]]['name'], fn.locals[fn.params[2]]['name']))
                         if not defined:
                             problems.append('case %s is handled although the rule is not defined for this value type' % name)
                         kids = fn.kids(body) if body['k'] == 'CompoundStmt' else []
@@ -377,10 +384,16 @@ def both_ends(ctx, rule='bothends-interleave'):
                                 rhs = fn.strip(fn.call_args(a)[1] if a['k'] == 'CXXOperatorCallExpr' else fn.nodes[a['c'][1]])
                                 return fn.call_args(rhs)[1]
                             ix_t, ix_e = idx_node(at), idx_node(ae)
+                            # locals that hold the length of the sorted index vector (`n = ind.size()`): that vector has `len` entries
+                            # (every arm of the dispatch sorts exactly `len` values -- rule dispatch-arm-matches-case-label)
+                            size_locals = [fn.locals[d['var']]['name'] for x in fn.walk(blk) if x['k'] == 'DeclStmt' for d in x['decls']
+                                           if 'init' in d and 'var' in d and sym(fn, d['init'], inline=False) in (('size', src), ('call', 'size', src))]
                             for L in range(0, 25):
                                 srcs = []
                                 for i in range(L):
                                     env = {('local', var): i, ('local', pn[2]): L}
+                                    for nm_ in size_locals:
+                                        env[('local', nm_)] = L
                                     try:
                                         c = ev(fn, br['cond'], env)
                                         j = ev(fn, ix_t if c else ix_e, env)
